@@ -58,6 +58,8 @@ def run(ctx):
     ctx.assume += ["chunking invariance is claimed for Fixed/Variable/Split/Random managers, BIQF and the baseline strategies (as the property states); "
                    "RandomVariableUncertainty and DensityBasedSplit consume normal draws and are checked for update-accepts-query and model agreement only"]
     ctx.coq_props()
+    from ..density import density_correspondence
+    density_correspondence(ctx)
     recs = []
     ns = 5 if ctx.is_quick else 60
     for kind in S.ALL_KINDS:
